@@ -107,21 +107,28 @@ func c16Sufficiency(cs *core.Case) (ran bool, sym, det string) {
 	if s == "" {
 		return true, "", ""
 	}
-	// Is the result of this query a function of its inputs at all? (topk ties and the
-	// arbitrary choice among duplicate match-group members are not: C11's business.)
-	for i := 0; i < 3; i++ {
+	// Is the result of this query a function of its inputs at all? Where the reference
+	// rejects the query (the F03 family: several same-group series in a one-to-one match)
+	// the engine picks one of the duplicates by map order; topk ties are arbitrary too.
+	if ref := core.RunRef(cs, st); ref.Failed() {
+		return true, "nondeterministic", "reference rejects"
+	}
+	if hasK(cs.Q) && kOperandHasTie(cs, st) {
+		return true, "nondeterministic", "topk tie"
+	}
+	for i := 0; i < 5; i++ {
 		again := core.RunEngine(cs, st)
 		if s2, _ := core.Diff(full.Res, again.Res, false); s2 != "" {
-			return true, "nondeterministic", ""
+			return true, "nondeterministic", "unstable"
 		}
 	}
 	// deterministic over the full storage: the difference must then show every time
 	st.TruncateToHints = true
 	defer func() { st.TruncateToHints = false }()
-	for i := 0; i < 3; i++ {
+	for i := 0; i < 5; i++ {
 		again := core.RunEngine(cs, st)
 		if s2, _ := core.Diff(full.Res, again.Res, false); s2 == "" {
-			return true, "nondeterministic", ""
+			return true, "nondeterministic", "unstable"
 		}
 	}
 	return true, "hints-insufficient:" + s, "over a storage that drops samples outside [hints.Start, hints.End]: " + d
@@ -234,7 +241,10 @@ func init() {
 						continue
 					}
 					if sym == "nondeterministic" {
-						c.Rep.Outcomes["result-not-deterministic(skipped)"]++
+						c.Rep.Outcomes["result-not-deterministic(skipped):"+det]++
+						if det == "unstable" {
+							c.Note("sufficiency: result of %q is not reproducible although the reference accepts it and no topk tie exists", q)
+						}
 						continue
 					}
 					c.Rep.Outcomes["diff:"+sym]++
